@@ -89,6 +89,11 @@ type Case struct {
 	// Spelling of the request target: "" = Go's canonical escaping,
 	// over-upper | over-lower | mixed = equivalent alternative escapings.
 	Spelling string `json:"spelling,omitempty"`
+	// Shape of the request body as the handler sees it ("" = as parsed off
+	// the wire; otherwise one of doubles.BodyShapes): unknown length, one
+	// byte per Read, (0, nil) reads, last bytes together with io.EOF. The
+	// request is the same, so the table applies unchanged.
+	Shape string `json:"shape,omitempty"`
 
 	// chain
 	Entry string `json:"entry,omitempty"` // well-known | root | root-slash | principal
